@@ -8,6 +8,9 @@ CONSTANTS
   DescCmds = {"cmd", "stop", "_stop"}
   Wires = {"w1"}
   ValidW = {"w1"}
+  ValidWB = {}
+  Variants = {"a"}
+  OtherDescs = {}
   ENames = {"HardwareError"}
   KnownE = {"HardwareError"}
   Texts = {"t1"}
